@@ -477,10 +477,12 @@ def framing(combo: int, cl: str, x: str, bd: str) -> bool:
     """
     pre: 0 <= combo < NCOMBO
     pre: len(cl) == 2 and len(x) == 1 and len(bd) == B['bd'] and all_latin1(cl + x + bd)
-    pre: not ("3" <= cl[0] <= "9")
+    pre: not lbytes._char_in(cl[0], "3456789abcdefABCDEF")
     post: _
     """
-    cl = _digit_cases(fix(cl, 2), _DIGITS)
+    cl = fix(cl, 2)
+    if combo != 0 and combo != 7:
+        cl = _digit_cases(cl, _DIGITS)      # (unused in combinations 0 and 7)
     x = fix(x, 1)
     if combo == 3:
         x = _digit_cases(x, _DIGITS)
@@ -516,8 +518,8 @@ HARNESSES = [
       timeout={"quick": 60, "thorough": 900}),
     H(k_decint, shards=lambda tier: [("len(s) == %d" % a,) for a in range(BOUNDS[tier]["di"] + 1)],
       timeout={"quick": 60, "thorough": 900}),
-    H(framing, shards=[("combo == %d" % c,) for c in range(NCOMBO)], timeout={"quick": 100, "thorough": 900}),
-    H(names_channel, timeout={"quick": 100, "thorough": 900}),
+    H(framing, shards=[("combo == %d" % c,) for c in range(NCOMBO)], timeout={"quick": 240, "thorough": 900}),
+    H(names_channel, timeout={"quick": 240, "thorough": 900}),
 ]
 
 VECTORS = {
